@@ -162,6 +162,16 @@ class RecordingWrapper(CookieJarWrapper):
             raise
 
 
+    def extract_cookies(self, response, request, referrer_host=None):
+        """records when http.cookiejar refuses the request URL (ValueError from urllib.parse.urlsplit) while
+        the cookies of a response are taken in"""
+        try:
+            return super().extract_cookies(response, request, referrer_host)
+        except ValueError:
+            self.extract_raised = True
+            raise
+
+
 def response_bytes(r):
     out = b'HTTP/1.1 %d R\r\nContent-Length: 0\r\n' % r['status']
     if r.get('location') is not None:
@@ -238,6 +248,7 @@ def run_case(case, loop):
                 wrapper.extract_cookies(resp, Request(pre['url']))
             except ValueError:
                 pass
+        wrapper.extract_raised = False
     web_client = WebClient(client, request_factory=factory,
                            redirect_tracker_factory=functools.partial(RedirectTracker,
                                                                       max_redirects=case.get('max_redirects', 20)),
@@ -294,6 +305,9 @@ def run_case(case, loop):
                 end = 'exc:%s' % type(e).__name__
                 if isinstance(e, ValueError) and jar is not None and len(jar.asked) > n_asked and jar.asked[-1].get('raise'):
                     end = 5
+                elif isinstance(e, ValueError) and wrapper is not None and getattr(wrapper, 'extract_raised', False):
+                    end = 5
+                    hop['xraise'] = True
                 response = None
             conns = pool.connections[n_conn:]
             if conns and conns[0].writes:
